@@ -29,7 +29,7 @@ MUST = ["transcripts", "interleavings_compared", "concurrent_interleavings", "sn
         "cross_family_pairs", "same_template_pairs", "requests_compared"]
 EXHAUSTIVE = {"quick": False, "thorough": False}
 
-TEMPLATES = ["ET205", "ET205g", "ET745", "ETv1", "DT", "ESv1", "ESv2", "ESv2g"]
+TEMPLATES = ["ET205", "ET205g", "ET745", "ETv1", "ETf", "DT", "DTu", "ESv1", "ESv2", "ESv2g"]
 
 
 # ---- worker side: one transcript per interpreter -------------------------------------------------------------------
@@ -37,7 +37,8 @@ def build_sim(tpl, seed, owner):
     rnd = random.Random(seed)
     if tpl.startswith("ET"):
         tag = "ETT" if tpl == "ET745" else "ETU"
-        sim = models.et_sim(owner, tag=tag, refused_blocks=["eco_v2", "peak_shaving"] if tpl == "ETv1" else [], rnd=rnd, style="random")
+        sim = models.et_sim(owner, tag=tag, refused_blocks=["eco_v2", "peak_shaving"] if tpl == "ETv1" else [], rnd=rnd,
+                            style="ff" if tpl == "ETf" else "random")
         typ = 6 if tpl == "ET745" else 0
         for gi, base in enumerate((47547, 47553, 47559, 47565)):
             onoff = rnd.choice((typ, 255 - typ))
@@ -55,10 +56,10 @@ def build_sim(tpl, seed, owner):
         sim.regs[45356] = rnd.randrange(0, 100)
         sim.set_bytes(45200, bytes([24, 5, 17, 12, 30, 15]))
         return sim
-    if tpl == "DT":
+    if tpl in ("DT", "DTu"):
         sim = models.dt_sim(owner, tag=rnd.choice(("DTU", "DSN")), rnd=rnd, style="random")
-        if rnd.random() < 0.5:          # undefined (all-ones) lifetime counters on one of the inverters
-            for a in range(30195, 30201):
+        if tpl == "DTu":                # undefined (all-ones) counters and values on this inverter
+            for a in list(range(30195, 30201)) + list(range(30127, 30148)):
                 sim.regs[a] = 0xFFFF
         sim.regs[40328] = rnd.randrange(0, 100)
         sim.regs[40336] = rnd.randrange(0, 100)
@@ -133,8 +134,8 @@ def worker(spec):
     async def flow(loop):
         fams = {"ET": g.ET, "DT": g.DT, "ES": g.ES}
         for i, o in enumerate(objs):
-            inv = fams[o["template"][:2]](f"inv{i}", o["port"], 0, 1, 0)
-            invs.append(inv)
+            # only the objects that take part in this transcript exist in this interpreter ("run alone" means alone)
+            invs.append(fams[o["template"][:2]](f"inv{i}", o["port"], o.get("comm", 0), 1, 0) if i in spec["active"] else None)
         # device info always first, in object order (identical in solo and interleaved runs)
         for i in spec["active"]:
             await invs[i].read_device_info()
@@ -305,14 +306,21 @@ def make_scenario(rnd, a, b, seed, tier):
     pa = rnd.choice((8899, 502)) if not a.startswith("ES") else 8899
     pb = rnd.choice((8899, 502)) if not b.startswith("ES") else 8899
     return {"seed": seed, "n_random_merges": 1 if tier == "quick" else 3, "n_concurrent": 1 if tier == "quick" else 2,
-            "objects": [{"template": a, "port": pa, "seed": seed + ":A", "calls": calls_for(a, rnd)},
-                        {"template": b, "port": pb, "seed": seed + ":B", "calls": calls_for(b, rnd)}]}
+            "objects": [{"template": a, "port": pa, "seed": seed + ":A", "calls": calls_for(a, rnd), "comm": rnd.choice((0, 0, 0x11))},
+                        {"template": b, "port": pb, "seed": seed + ":B", "calls": calls_for(b, rnd), "comm": rnd.choice((0, 0, 0x25))}]}
 
 
 def directed_scenarios(seed):
     """The interference patterns the property text names explicitly."""
     out = []
     ec = ["set_operation_mode", {"mode": "ECO_CHARGE"}, 40, 80]
+    rr = [["read_runtime_data"]]
+    for a, b, ca, cb in (("DT", "DTu", 0, 0), ("DTu", "DT", 0, 0), ("ET205", "ETf", 0, 0), ("ETf", "ET205", 0, 0), ("ET205", "ET205", 0x11, 0),
+                         ("ET205", "DT", 0x7F, 0), ("DT", "DT", 0, 0x25), ("ESv1", "ESv1", 0, 0x33)):
+        for calls_a, calls_b in ((rr, rr), (rr + [["read_setting", "grid_export_limit"]], rr)):
+            out.append({"seed": f"{seed}:dirR:{a}:{b}:{len(out)}", "n_random_merges": 0, "n_concurrent": 1,
+                        "objects": [{"template": a, "port": 8899, "seed": f"{seed}:rA{len(out)}", "calls": calls_a, "comm": ca},
+                                    {"template": b, "port": 8899, "seed": f"{seed}:rB{len(out)}", "calls": calls_b, "comm": cb}]})
     for a, b in (("ET745", "ET205g"), ("ET745", "ET205"), ("ET205", "ET745"), ("ESv2", "ESv2g"), ("ET745", "ETv1"), ("ESv2", "ET205g"),
                  ("ET205g", "ET745"), ("ESv1", "ESv1"), ("ET205", "ET205")):
         for ca in ([ec], [["read_setting", "eco_mode_1"]], [["read_setting", "eco_mode_1"], ec]):
